@@ -4,6 +4,7 @@ CONSTANTS
   TextSyms = {"a", "*"}
   MaxP = 5
   MaxT = 6
+  MaxL = 2
   Dev = {}
 INIT GenInit
 NEXT GenNext
